@@ -5,35 +5,48 @@ From NT Require Import Sx Rose ListFacts RoseFacts Surgery SurgeryFacts Machine 
   PreserveSteps PreserveOps PreserveSort PreserveCopy PreserveMore PreserveRelabel PreserveKeepClones.
 Import ListNotations.
 
-Theorem WFw_step w o : WFw w -> WFw (snd (step w o)).
+Theorem WFx_step w o : WFw w -> WFx w (snd (step w o)).
 Proof.
   intros H. destruct o; cbn [step].
-  - now apply WFw_op_add.
-  - now apply WFw_op_shortcut.
-  - now apply WFw_op_add_node.
-  - now apply WFw_op_add_tree.
-  - now apply WFw_op_copy_to.
-  - now apply WFw_op_tree_copy.
-  - now apply WFw_op_node_copy.
-  - now apply WFw_op_move.
-  - now apply WFw_op_remove_full.
-  - now apply WFw_op_remove_children.
-  - now apply WFw_op_sort.
-  - now apply WFw_op_set_data.
-  - now apply WFw_op_rename.
-  - now apply WFw_op_meta.
-  - now apply (WFw_new_tree w is_typed c).
-  - now apply WFw_op_clear.
-  - now apply WFw_op_del.
-  - now apply WFw_op_filter.
-  - now apply WFw_op_from_dict.
-  - now apply WFw_op_tree_from_dict.
+  - now apply WFx_op_add.
+  - now apply WFx_op_shortcut.
+  - now apply WFx_op_add_node.
+  - now apply WFx_op_add_tree.
+  - now apply WFx_op_copy_to.
+  - now apply WFx_op_tree_copy.
+  - now apply WFx_op_node_copy.
+  - now apply WFx_op_move.
+  - now apply WFx_op_remove_full.
+  - now apply WFx_op_remove_children.
+  - now apply WFx_op_sort.
+  - now apply WFx_op_set_data.
+  - now apply WFx_op_rename.
+  - now apply WFx_op_meta.
+  - now apply (PreserveCopy_WFx_new_empty w is_typed c).
+  - now apply WFx_op_clear.
+  - now apply WFx_op_del.
+  - now apply WFx_op_filter.
+  - now apply WFx_op_from_dict.
+  - now apply WFx_op_tree_from_dict.
+Qed.
+
+Theorem WFw_step w o : WFw w -> WFw (snd (step w o)).
+Proof. intros H. exact (proj1 (WFx_step w o H)). Qed.
+
+Theorem WFx_run ops : forall w, WFw w -> WFx w (run ops w).
+Proof.
+  induction ops as [|o ops IH]; intros w H; [exact (WFx_refl w H)|].
+  unfold run. cbn [fold_left]. assert (X := WFx_step w o H). exact (WFx_trans _ _ _ X (IH _ (proj1 X))).
 Qed.
 
 Theorem WFw_run ops : forall w, WFw w -> WFw (run ops w).
+Proof. intros w H. exact (proj1 (WFx_run ops w H)). Qed.
+
+(* identities are never reused: a node that is not in the world now (removed, or never created with
+   an identity below the allocator) is in no later world of the history *)
+Theorem never_comes_back ops w m : WFw w -> m < next w -> ~ In m (all_ids w) -> ~ In m (all_ids (run ops w)).
 Proof.
-  induction ops as [|o ops IH]; intros w H; [exact H|].
-  unfold run. cbn [fold_left]. apply IH. now apply WFw_step.
+  intros H L N Y. destruct (WFx_run ops w H) as (_ & _ & F). destruct (F m Y) as [X|X]; [contradiction|lia].
 Qed.
 
 (* every state along a history *)
@@ -237,4 +250,36 @@ Proof.
   - assert (P := wf_idx _ Wt'). cbn in P. assert (Ne := wf_ine _ Wt'). cbn [idx set_all] in *.
     destruct ix' as [|e ix0]; [reflexivity|]. exfalso. inversion Ne as [|x l N1 N2]; subst.
     destruct (snd e) as [|m l0] eqn:E; [contradiction|]. apply Permutation_sym in P. apply Permutation_nil in P. unfold idx_flat in P. cbn in P. rewrite E in P. discriminate.
+Qed.
+
+Lemma not_in_put w ti t t' m : WFw w -> get_tree w ti = Some t -> In m (ids (forest_of t)) ->
+  ~ In m (ids (forest_of t')) -> ~ In m (all_ids (put_tree w ti t')).
+Proof.
+  intros H G Hm Nm. unfold get_tree in G. destruct (nth_error_split _ _ G) as (a & b & E & <-).
+  assert (ND := ww_disj w H). destruct w as [ts nw]. cbn [trees next] in *. subst ts.
+  unfold put_tree. cbn [trees next]. rewrite upd_nth_split, all_ids_split. rewrite all_ids_split in ND.
+  intros Y. apply in_app_or in Y. destruct Y as [Y|Y].
+  - apply (NoDup_app_disj _ _ m ND Y). apply in_or_app. now left.
+  - apply in_app_or in Y. destruct Y as [Y|Y]; [contradiction|].
+    apply NoDup_app_r in ND. apply (NoDup_app_disj _ _ m ND Hm Y).
+Qed.
+
+(* a removed branch is absent from every later state of every continuation of the history *)
+Theorem removed_never_returns w ti n t s ops :
+  WFw w -> get_tree w ti = Some t -> get_node n (forest_of t) = Some s ->
+  forall m, In m (ids_t s) -> ~ In m (all_ids (run ops (snd (op_remove w ti n false false)))).
+Proof.
+  intros H Gt Gn m Hm. assert (Wt := WFw_tree w ti t H Gt).
+  destruct (get_node_spec n _ s Gn) as (Ps & Rs).
+  assert (Hmt : In m (ids (forest_of t))).
+  { destruct (pre_f_segment _ s Ps) as (a & b & E). unfold ids. rewrite E, !map_app. apply in_or_app. right. apply in_or_app. now left. }
+  assert (L : m < next w) by (apply (WFw_tree_lt w ti t m H Gt Hmt)).
+  assert (X := WFx_op_remove_full w ti n false false H).
+  apply never_comes_back; [apply X|destruct X as (_ & L2 & _); lia|].
+  (* absent right after the removal *)
+  destruct (removed_branch_gone w ti n t s H Gt Gn) as (t' & G' & _ & Gone).
+  revert G' X. unfold op_remove. rewrite Gt. unfold did_of. rewrite Gn. cbn [option_map andb snd].
+  intros G' _. match goal with |- ~ In m (all_ids (put_tree w ti ?a)) => set (a' := a) in * end.
+  assert (a' = t') by (rewrite (get_put_tree w ti t a' Gt) in G'; now injection G'). subst t'.
+  apply (not_in_put w ti t a' m H Gt Hmt). now apply Gone.
 Qed.
